@@ -157,7 +157,8 @@ func determineCompletionContext(content string, pos protocol.Position, ctx *prot
 		return ContextAccount
 	}
 
-	if strings.HasPrefix(line, "    ") || strings.HasPrefix(line, "\t") {
+	// A posting line is any indented line, whatever the width of the indent.
+	if line[0] == ' ' || line[0] == '\t' {
 		return determinePostingContext(line, pos)
 	}
 
